@@ -373,7 +373,7 @@ def decode(model, ids):
            "scan": {"missing": [[ln, dn(d)] for ln, d in model["scan"]["missing"]],
                     "unused": [[ln, dn(f), dn(a)] for ln, f, a in model["scan"]["unused"]]},
            "trace": [[ln, rev[n], r] for ln, n, r in model["trace"]]}
-    for k in ("stage", "star_free", "sound", "precise", "exact", "ustage", "unused_ok"):
+    for k in ("stage", "star_free", "sound", "precise", "exact", "ustage", "unused_ok", "dx", "unused_doc_ok"):
         if k in model:
             out[k] = model[k]
     if "scandoc" in model:
